@@ -25,6 +25,7 @@ import io
 import itertools
 import math
 import os
+import random
 import warnings
 from fractions import Fraction
 
@@ -262,6 +263,8 @@ def rand_quat(rng):
 
 
 def rand_zooms(rng, wide):
+    if wide and wide is not True:
+        return [10.0 ** rng.uniform(-wide, wide) for _ in range(3)]
     if wide:
         return [10.0 ** rng.uniform(-6, 6) for _ in range(3)]
     return [rng.uniform(0.3, 4.0) for _ in range(3)]
@@ -312,8 +315,9 @@ def random_affine(rng, kind):
         A[:3, :3] = m
         A[:3, 3] = rand_trans(rng, rng.random() < 0.3)
         return dict(kind=kind, A=A, rot=False, w=None, refl=None, axis_aligned=False)
-    refl = -1 if kind == 'reflect' or (kind in ('near180', 'rand180', 'extreme') and rng.random() < 0.5) else 1
-    wide = kind == 'extreme'
+    refl = -1 if kind == 'reflect' or (kind in ('near180', 'rand180', 'extreme', 'zoom32', 'zoom64')
+                                       and rng.random() < 0.5) else 1
+    wide = {'extreme': True, 'zoom32': 30, 'zoom64': 150}.get(kind, False)
     if kind == 'near180':
         w = 10.0 ** rng.uniform(-9, -0.3)
         v = np.array([rng.gauss(0, 1) for _ in range(3)])
@@ -330,11 +334,35 @@ def random_affine(rng, kind):
     if q is not None:
         m = q2m(q)
         w = abs(float(q[0])) / float(np.linalg.norm(q))
-    A = make_affine(m, rand_zooms(rng, wide), refl, rand_trans(rng, wide or rng.random() < 0.2))
-    return dict(kind=kind, A=A, rot=True, w=w, refl=refl, axis_aligned=False)
+    A = make_affine(m, rand_zooms(rng, wide), refl, rand_trans(rng, wide is True or rng.random() < 0.2))
+    out = dict(kind=kind, A=A, rot=True, w=w, refl=refl, axis_aligned=False)
+    if kind == 'zoom64':
+        out['vers'] = [2]       # voxel sizes outside the float32 range: float64 headers only
+    return out
 
 
-KINDS = ['general', 'rigid_zoom', 'reflect', 'near180', 'rand180', 'extreme']
+def huge_affines(rng, n):
+    """Voxel sizes 1e-150 .. 1e150 (float64 formats only): seed-independent core whose zoom products
+    underflow / overflow float64 (and float32), all tiny, all huge, mixed; plus a random tail."""
+    out = []
+    quats = [(0.5, 0.5, 0.5, 0.5), (0.8, 0.0, 0.6, 0.0), (0.6, -0.48, 0.0, 0.64), (0.36, 0.48, -0.8, 0.0)]
+    zsets = [(1e-108, 3e-109, 2e-108), (1e-150, 1e-150, 1e-150), (7e-120, 1e-100, 3e-115), (1e110, 2e105, 3e120),
+             (1e150, 1e150, 1e150), (1e-150, 1.0, 1e150), (1e150, 1e-150, 1e-20), (1e-40, 1e-45, 1e-50),
+             (1e40, 1e45, 1e50)]
+    k = 0
+    for z in zsets:
+        for refl in (1, -1):
+            q = np.array(quats[k % len(quats)])
+            k += 1
+            A = make_affine(q2m(q), list(z), refl, [10.0, -20.0, 30.0])
+            out.append(dict(kind='zoom64', A=A, rot=True, w=abs(float(q[0])) / float(np.linalg.norm(q)), refl=refl,
+                            axis_aligned=False, vers=[2]))
+    for _ in range(n):
+        out.append(random_affine(rng, 'zoom64'))
+    return out
+
+
+KINDS = ['general', 'rigid_zoom', 'reflect', 'near180', 'rand180', 'extreme', 'zoom32']
 
 
 # ----------------------------------------------------------------------------- implementation runners
@@ -783,6 +811,8 @@ def obs_hdr(case):
     a = aff_of_case(case)
     out = {}
     for ver, H in ((1, nib.Nifti1Header), (2, nib.Nifti2Header)):
+        if ver not in case.get('vers', [1, 2]):
+            continue
         r = {}
         with warnings.catch_warnings():
             warnings.simplefilter('ignore')
@@ -812,7 +842,7 @@ def pred_hdr(case, o):
     res = []
     A = A_of(case)
     a = aff_of_case(case)
-    for ver in (1, 2):
+    for ver in sorted(o):
         r = o[ver]
         eps = EPS32 if ver == 1 else EPS64
         if not (r['s0'][0] is None and r['s0'][1] == 0 and r['q0'][0] is None and r['q0'][1] == 0):
@@ -1453,7 +1483,8 @@ def run(chk: Check):
                 '(sform_code, qform_code) pairs x header affine {equal, allclose-but-different, far} x 4 NIfTI classes '
                 'x both byte orders; exhaustive decision tables (priority, code resolution incl. invalid codes). '
                 'Random tail (VERIF_SEED): general non-singular (cond < 200), rigid+zoom, reflection, near-180 '
-                '(|w| log-uniform 1e-9..0.5), exact 180 about random axes, zooms 1e-6..1e6 with translations to 1e6; '
+                '(|w| log-uniform 1e-9..0.5), exact 180 about random axes, zooms 1e-6..1e6 with translations to 1e6, mixed zooms '
+                '1e-30..1e30 (all classes) and 1e-150..1e150 with products under/overflowing float64 (NIfTI-2 only); '
                 'each x 8 image classes (Nifti1Image, Nifti1Pair, Nifti2Image, Nifti2Pair, AnalyzeImage, '
                 'Spm99AnalyzeImage, Spm2AnalyzeImage, MGHImage) x header supplied or not (header affine equal / allclose / far / '
                 'far with the determinant of the other sign); histories of 2-6 set_sform/set_qform calls on ONE header and '
@@ -1465,6 +1496,8 @@ def run(chk: Check):
                 'file maps plus real files under the work directory.  A case is non-trivial when the affine is not a diagonal matrix; '
                 'distinct by (class, affine bits, header spec)')
     chk.assumptions = ['affines are finite, non-singular (cond < 200 for the general kind), shapes 3-D with dims <= 64',
+                       'voxel sizes within 1e-150..1e150 for float64 headers (below ~1e-154 / above ~1e154 the squares in the '
+                       'column-norm computation under/overflow float64) and within 1e-30..1e30 for float32 headers',
                        'float32 rounding, column norms, sign of det (exact rational), polar factor and eigh quaternion '
                        'are inputs to the model (computed by NumPy / exact Fractions in the harness), not modelled',
                        'platform is little-endian; np.allclose defaults read from its signature']
@@ -1479,7 +1512,7 @@ def run(chk: Check):
         return
     rng = chk.rng
     core = core_affines()
-    nrand = chk.n(700, 6000)
+    nrand = chk.n(560, 6000)
     rand = [random_affine(rng, KINDS[i % len(KINDS)]) for i in range(nrand)]
     lines = []
     expect = {}       # line id -> (expected, what, case)
@@ -1492,6 +1525,11 @@ def run(chk: Check):
     n_refused = 0
     edits = edit_scenarios(chk, core, rand)
     nscen = list(nifti_scenarios(chk, core, rand))
+    huge0 = huge_affines(random.Random(chk.seed + 1), max(4, nrand // 25))
+    for k, a in enumerate(huge0):
+        for cls in ('n2', 'n2p'):
+            nscen.append((a, cls, None))
+            nscen.append((a, cls, dict(sc=0, qc=1 + k % 5, bkind='same', be=bool(k % 3 == 0))))
     nscen += [(a, cls, None, [3, 4, 5], e) for (a, cls, e) in edits if cls in ('n1', 'n1p', 'n2', 'n2p')]
     for i, scen in enumerate(nscen):
         a, cls, spec = scen[:3]
@@ -1531,18 +1569,21 @@ def run(chk: Check):
             acp.append((a['A'].ravel().tolist(), o['best0'].ravel().tolist()))
 
     # ---- header-level and image-level qform / sform API
-    hl = [(a, True) for a in core] + [(a, False) for a in rand]
+    huge = huge_affines(rng, max(6, nrand // 12))
+    hl = [(a, True) for a in core] + [(a, False) for a in rand] + [(a, False) for a in huge]
     for i, (a, is_core) in enumerate(hl):
         case = case_of(a, scn='hdr', scode=1 + i % 5, qcode=1 + (i // 5) % 5, axis_aligned=a['axis_aligned'])
+        if a.get('vers'):
+            case['vers'] = a['vers']
         o = obs_hdr(case)
         chk.count(key=('hdr', tuple(case['A'])), tag=f"hdrapi:{a['kind']}")
         ok = True
         for pred, known in pred_hdr(case, o):
             ok = handle_pred(chk, case, pred, known,
-                             impl_out={v: (None if o[v]['Q'] is None else o[v]['Q'].tolist()) for v in (1, 2)}) and ok
+                             impl_out={v: (None if o[v]['Q'] is None else o[v]['Q'].tolist()) for v in sorted(o)}) and ok
         preds[f'h{i}'] = ok
         if a['rot']:
-            cls = ('n1', 'n2', 'n1p', 'n2p')[i % 4]
+            cls = ('n1', 'n2', 'n1p', 'n2p')[i % 4] if not a.get('vers') else ('n2', 'n2p')[i % 2]
             case = case_of(a, scn='imgq', cls=cls, qcode=1 + i % 5, axis_aligned=a['axis_aligned'])
             o = obs_imgq(case)
             chk.count(key=('imgq', cls, tuple(case['A'])), tag=f"imgq:{cls}:{a['kind']}")
